@@ -56,6 +56,11 @@ Per operator of the catalogue:
 * wrong-arity .......... `wrong_arity_flags_rejected`, `wrong_arity_variadic_rejected`, `wrong_arity_size_rejected`,
                          `wrong_arity_fixed_rejected` (instances: `@initializes`, `@sort_key`, `@alignment`, `@sizeref`,
                          `@size` with too few / too many arguments)
+* join-lines(-flush) ... `join_code_comment_rejected` (a code line that has swallowed the comment line after it: plain members of every
+                         type, enum values, enum headers, plain struct headers, integer aliases, each followed on the same line by
+                         optional blanks / tabs and `#…`, are accepted in no context); the other classes of joined lines (code+code,
+                         header+member, attribute+declaration, comment+code …) and `split-line`: none — many of their results are
+                         well-formed; for these three operators the correspondence run lets the model say which results are ill-formed
 Still without a theorem: the general (all names) form of the attribute instances of `missing-bracket` and
 `wrong-arity`; these and every other site are covered by the correspondence run (every operator x every site on
 generated and shipped documents, each also with a whitespace-only line before / after the corrupted line; model and
@@ -522,6 +527,45 @@ theorem wrong_arity_fixed_rejected :
     LineRejected "@alignment()".toList ∧ LineRejected "@alignment(8, pad_last, 4)".toList ∧
     LineRejected "@sizeref()".toList ∧ LineRejected "@sizeref(ab, 1, 2)".toList ∧ LineRejected "@size()".toList :=
   wrong_arity_fixed
+
+/-! ### a line end lost in front of a comment line -/
+
+/-- Operators `join-lines` / `join-lines-flush` on a code line followed by a comment line: the code line with the comment
+    on the same line — after optional blanks / tabs (`CommentTail`) — is accepted in no context, the line parsers admit no
+    trailing `#`. For every plain member `name = T` (named type, integer, array of any kind), every enum value
+    `NAME = n`, every enum header `enum Name : T`, every plain struct header `struct Name`, and every integer alias
+    `using Name = T`. (Members with a condition, `make_const` / `make_reserved` / `sizeof` / `inline` members,
+    `abstract` / `inline` struct headers, `binary_fixed` aliases, attribute and import lines: correspondence run only.) -/
+theorem join_code_comment_rejected (tail : Chars) (h : CommentTail tail) :
+    (∀ (name : String) (t : FieldType), IsMemberName name → WFType t →
+      LineRejected (name.toList ++ ' ' :: '=' :: ' ' :: (t.render.toList ++ tail))) ∧
+    (∀ (name : String) (n : Nat), IsConstantName name →
+      LineRejected (name.toList ++ ' ' :: '=' :: ' ' :: ((toString n).toList ++ tail))) ∧
+    (∀ (name : Chars) (u : Bool) (sz : Nat), IsUserTypeName name → (sz = 1 ∨ sz = 2 ∨ sz = 4 ∨ sz = 8) →
+      LineRejected (enumLine (name ++ ' ' :: ':' :: ' ' :: ((IntType.shortName ⟨u, sz, none⟩).toList ++ tail)))) ∧
+    (∀ (name : Chars), IsUserTypeName name → LineRejected (structLine (name ++ tail))) ∧
+    (∀ (name : Chars) (u : Bool) (sz : Nat), IsUserTypeName name → (sz = 1 ∨ sz = 2 ∨ sz = 4 ∨ sz = 8) →
+      LineRejected (usingLine (name ++ ' ' :: '=' :: ' ' :: ((IntType.shortName ⟨u, sz, none⟩).toList ++ tail)))) := by
+  refine ⟨fun name t hn ht => member_comment_rejected name hn t ht tail h,
+    fun name n hn => enum_value_comment_rejected name hn n tail h,
+    fun name u sz hn hsz => enum_header_comment_rejected name hn u sz hsz tail h,
+    fun name hn => struct_header_comment_rejected name hn tail h, ?_⟩
+  intro name u sz hn hsz
+  have hscan := userTypeName_with_blank name (' ' :: '=' :: ' ' :: ((IntType.shortName ⟨u, sz, none⟩).toList ++ tail)) hn
+    (tail_head_not_type _)
+  have hint := fixedSizeInteger_shortName u sz hsz tail
+  have hA : ∀ t, lit "=" (' ' :: '=' :: t) = some t := by
+    intro t; simp [lit, skipWs, List.dropWhile, isWs, List.isPrefixOf]
+  obtain ⟨a, b, rest, rfl, ha, hb, hrest⟩ := hn
+  apply using_line_rejected
+  · simp only [aliasRest, hscan, hA, fixedSizeInteger_skip_blank, hint, atEol_commentTail tail h, bind, Option.bind,
+      Bool.false_eq_true, if_false]
+  · exact lit_eq_none_of_upper a _ ha
+
+/-- the texts of the fifth-round seed are instances -/
+example : CommentTail " # second member".toList := ⟨[' '], " second member".toList, rfl, rfl⟩
+example : CommentTail "\t# second member".toList := ⟨['\t'], " second member".toList, rfl, rfl⟩
+example : (parseString "struct Pair\n\tfirst = uint8 # second member\n\tsecond = uint8\n").toOption.isSome = false := by decide
 
 /-! ### structural operators, on printed documents -/
 
